@@ -182,7 +182,24 @@ Definition seg_ok (s : kseg) : bool :=
   | KQuoted _ => true
   | KBare ps => match ps with [] => false | _ => forallb part_ok ps end
   end.
-Definition path_ok (p : kpath) : bool := match p with [] => false | _ => forallb seg_ok p end.
+(* rustc's LEXER: an integer directly followed by `.` and then by something that does not start an
+   identifier is one float literal (`1.2`, `1."x"` give the tokens `1.2` / `1.` `"x"`), so the text of
+   such a path does not lex to `key_toks`: a bare segment ending in an integer part must be followed
+   by a bare segment starting with an identifier part (`1.e5` and `1.b` do lex as `1` `.` `b`). *)
+Definition seg_ends_int (s : kseg) : bool :=
+  match s with
+  | KBare ps => match rev ps with KPInt _ :: _ => true | _ => false end
+  | KQuoted _ => false
+  end.
+Definition seg_starts_ident (s : kseg) : bool :=
+  match s with KBare (KPIdent _ :: _) => true | _ => false end.
+Fixpoint path_lex_ok (p : kpath) : bool :=
+  match p with
+  | s1 :: ((s2 :: _) as tl) => (negb (seg_ends_int s1) || seg_starts_ident s2) && path_lex_ok tl
+  | _ => true
+  end.
+Definition path_ok (p : kpath) : bool :=
+  match p with [] => false | _ => forallb seg_ok p && path_lex_ok p end.
 
 Definition digits_ok (s : bytes) : bool := match s with [] => false | _ => forallb is_digit s end.
 
